@@ -6,7 +6,7 @@ from .common import *
 
 META = {
     'title': 'stream ciphers: sigma/tau, effective quarter-round index groups, quarter-round terms, core feed-forward, state layout, counter word split, keystream truncation, RC4 KSA/PRGA and stream continuity',
-    'expected_min': 30,
+    'expected_min': 144,
     'explanation': 'sigma/tau are compared with the ASCII constants; the index maps rM/cM (ChaCha: aliased from salsa20) are composed into the effective '
                    'row/column/diagonal groups and compared with the specifications; every method of salsa20.py, chacha.py and rc4.py is normalised '
                    'and compared with a restatement of the Salsa20/ChaCha/RC4 specifications; the counter split (i & mask, i >> shift) is checked to '
